@@ -11,6 +11,9 @@ RULE = ("40% grammar-generated histories with periodic save ticks / stop+start c
         "60% directed ones that end (1-3 times per history) with: save tick, ONE state-changing message of a chosen handler "
         "kind (node presentation, child presentation, set, battery, sketch name, sketch version, heartbeat, id request; "
         "kinds cycled), stop+start - so that the tick has cleared the dirty flag and only that handler can set it again; "
+        "in 35% of these endings the message is instead handled WHILE the periodic save is in progress (op save_during: "
+        "os.rename of the real save_sensors is intercepted after the nodes were serialised and the message is pumped there; "
+        "the model runs the linearisation save tick, then message); "
         "5 versions x threaded/asyncio x plain/MQTT x JSON/pickle, 30% of the directed ones without event callback. "
         "The monitor compares a typed snapshot of the tree held at stop() with the tree the next start loads. "
         "non-trivial = distinct history with at least one stop whose state had a node and that had a save tick before it")
@@ -67,6 +70,8 @@ def run(ctx, res):
     res.extra["stops"] = stops
     res.extra["stops_whose_only_change_since_the_last_save_tick_is_one_handler"] = tails
     res.extra["share_of_such_stops"] = round(tails / max(stops, 1), 3)
+    res.extra["ops_handled_while_a_periodic_save_was_in_progress"] = sum(
+        1 for r in recs for o in r["case"]["ops"] if tuple(o)[0] == "save_during")
     for r in recs[:2] + recs[-2:]:
         res.sample({"cfg": r["case"]["cfg"], "ops": r["case"]["ops"][:8], "n_ops": len(r["case"]["ops"])})
 
